@@ -349,7 +349,8 @@ def get_link_label(text, root):
 
 
 def normalize_label(text):
-    return ' '.join(text.split()).casefold()
+    # spaces, tabs and line endings are stripped and collapsed; other Unicode spaces are part of the label
+    return re.sub(r'[ \t\r\n]+', ' ', text.strip(' \t\r\n')).casefold()
 
 
 def next_closer(curr_pos, delimiters):
